@@ -126,7 +126,7 @@ class C11(EngineProp):
         main = st.tuples(st.tuples(genwf.program_strategy(**self.gen_kwargs), st.integers(0, 3)).map(thin), st.sampled_from([None, None, None, "ctx", "dict"])).map(cont)
         from .c05 import C05
 
-        timed = C05().strategy(tier).map(lambda c: {"timed": c})
+        timed = C05()._policy_cases().map(lambda c: {"timed": c})
         return st.one_of(main, main, main, handlers, timed)
 
     def setup(self):
